@@ -331,10 +331,20 @@ def _run(ctx, rng, thorough, T):
         cmd = [B('gen-signedexchange'), '-version', ver, '-uri', 'https://example.com/page%d.html' % i, '-content', content, '-certificate', certpem, '-privateKey', keypem,
                '-certUrl', 'https://example.com/cert.cbor', '-validityUrl', 'https://example.com/validity', '-miRecordSize', str(rs), '-expire', rng.choice(['1h', '168h', '1m']), '-o', outp,
                '-responseHeader', 'X-Extra: v1', '-responseHeader', 'X-Extra: v2']
-        rc, _, err = sh(cmd)
-        rec(ctx, f'c20.gen-signedexchange {ver} key={kname} rs={rs}', 'exit %d %s' % (rc, err.decode()[-160:].strip() if rc else ''), 'exit 0 ')
+        # the output channel is an input dimension too: '-o -' sends the exchange to stdout (nothing else may be printed there), with
+        # and without an explicit content-type response header (the default one is filled in by the tool)
+        via_stdout = i % 3 != 0
+        if i % 2 == 0: cmd += ['-responseHeader', 'Content-Type: text/html; charset=utf-8']
+        if via_stdout: cmd[cmd.index('-o') + 1] = '-'
+        rc, so, err = sh(cmd)
+        if via_stdout and rc == 0:
+            open(outp, 'wb').write(so)
+        rec(ctx, f'c20.gen-signedexchange {ver} key={kname} rs={rs} stdout={via_stdout} ct={i % 2 == 0}', 'exit %d %s' % (rc, err.decode()[-160:].strip() if rc else ''), 'exit 0 ')
         if rc == 0:
-            rc2, out2, err2 = sh([B('dump-signedexchange'), '-i', outp, '-verify', '-cert', chain, '-payload=false'])
+            if i % 2 == 1:      # the reader fed through stdin
+                rc2, out2, err2 = sh([B('dump-signedexchange'), '-verify', '-cert', chain, '-payload=false'], inp=open(outp, 'rb').read())
+            else:
+                rc2, out2, err2 = sh([B('dump-signedexchange'), '-i', outp, '-verify', '-cert', chain, '-payload=false'])
             ok = b'The exchange has a valid signature' in out2 or b'valid' in out2.lower()
             rec(ctx, f'c20.dump-signedexchange-verify {ver} i={i}', f'exit {rc2} valid={ok}', 'exit 0 valid=True')
     # a b3 response that is not cacheable must be refused by gen-signedexchange (self-verification), not emitted
